@@ -532,5 +532,36 @@ void gx_add_fault(int site, int tid, int k, int sticky, int err, int mode, int64
 void gx_common_cfg(int n) { gen_common_cfg(n); }
 void gx_absent(int pct) { gen_absent_facilities(pct); }
 void gx_eintr(int nloops, int pct) { gen_eintr(nloops, pct); }
+/* planned failures of registration calls (fork, pipe, pthread_create, inotify_init, inotify_add_watch):
+ * attached to the object, hitting its first attempt; drawn last so that the rest of the plan does not depend on them */
+void gx_regfail(void)
+{
+	int i;
+	for (i = 0; i < G->nobj; i++) {
+		struct pobj *po = &G->obj[i];
+		switch (po->kind) {
+		case K_WAIT:
+			if (po->p[0] == 0 && P(6))
+				po->p[7] = 1;
+			break;
+		case K_POPEN:
+			if (P(8))
+				po->p[7] = 1 + R(2);
+			break;
+		case K_IVTHREAD:
+			if (P(8))
+				po->p[7] = 1;
+			break;
+		case K_INOT:
+			if (P(4))
+				po->p[7] = 1;
+			break;
+		case K_WATCH:
+			if (P(6))
+				po->p[7] = 1;
+			break;
+		}
+	}
+}
 int64_t gx_delta(void) { return pick64(deltas, NDELTAS); }
 uint64_t gx_u64(void) { return sm64(&S); }
